@@ -50,3 +50,4 @@ revert 2506317 C07
 revert 057bbdd C05
 revert 95ddb54 C02
 revert 3813bce C05
+revert 54caa68 C05
